@@ -154,6 +154,9 @@ def build(v, named):
     return v
 
 
+TMP_PATHS = []
+
+
 class NumSeq(list):
     """List of numbers compared to the printed precision of the formats involved."""
 
@@ -218,6 +221,15 @@ def build_native(v, named):
         o = OutFile()
         named[v["$id"]] = o
         return o
+    if kind == "tmppath":
+        import tempfile
+
+        fd, path = tempfile.mkstemp(prefix="pyvc_native_", suffix=".out")
+        os.close(fd)
+        os.unlink(path)
+        TMP_PATHS.append(path)
+        named[v["$id"]] = path
+        return path
     raise ValueError(kind)
 
 
@@ -228,6 +240,10 @@ def _tol(a, b):
 def tcmp(op, a, b, pol=1):
     """Comparison used when contract text is evaluated natively on floats (pol: +1 lenient,
     -1 tight, 0 exact); a bounded stand-in must not alarm on round-off."""
+    if isinstance(a, Fraction) and isinstance(b, (float, int)) and not isinstance(b, bool):
+        a = float(a)
+    if isinstance(b, Fraction) and isinstance(a, (float, int)) and not isinstance(a, bool):
+        b = float(b)
     fa = isinstance(a, float) or isinstance(b, float)
     if pol and fa and isinstance(a, (int, float)) and isinstance(b, (int, float)) and not isinstance(a, bool) \
             and not isinstance(b, bool):
@@ -503,6 +519,11 @@ def run(replay, tolerant=False):
         logging.getLogger().removeHandler(h)
         for owner, name, orig in restore:
             setattr(owner, name, orig)
+        while TMP_PATHS:
+            try:
+                os.unlink(TMP_PATHS.pop())
+            except OSError:
+                pass
     return out
 
 
